@@ -311,15 +311,44 @@ def _float(x):
 class _Sub:
     """Annotation dummy: Qint[4], Tuple[...], Qlist[...], ..."""
 
+    def __init__(self, kind=None, params=None):
+        self.kind, self.params = kind, params
+
     def __getitem__(self, k):
-        return self
+        return _Sub(self.kind, k)
+
+
+def _coerce_args(f):
+    """Arguments narrower than the annotated Qint width are zero-extended (the
+    documented widening when a value meets a wider declared type)."""
+    import functools
+    import inspect
+    try:
+        sig = inspect.signature(f)
+    except (TypeError, ValueError):
+        return f
+    widths = []
+    for p in sig.parameters.values():
+        a = p.annotation
+        widths.append(a.params if isinstance(a, _Sub) and a.kind == "Qint" and isinstance(a.params, int) else None)
+    if not any(widths):
+        return f
+
+    @functools.wraps(f)
+    def g(*args):
+        args = list(args)
+        for i, w in enumerate(widths[:len(args)]):
+            if w and isinstance(args[i], TInt) and args[i].w < w:
+                args[i] = TInt(args[i].v, w)
+        return f(*args)
+    return g
 
 
 def namespace():
     ns = {"ord": _ord, "chr": _chr, "int": _int, "float": _float, "Qchar": lambda c: TChar(c),
           "print": lambda *a, **k: None}
     for nm in ("Qint", "Qfixed", "Qlist", "Qmatrix", "Tuple", "List", "Parameter"):
-        ns[nm] = _Sub()
+        ns[nm] = _Sub(nm)
     for w in (2, 3, 4, 5, 6, 7, 8, 12, 16):
         ns[f"Qint{w}"] = (lambda w: (lambda v: TInt(_wrap(v.v if isinstance(v, TInt) else v, w), w)))(w)
     for i, f in QFIXED_ORDER:
@@ -398,6 +427,11 @@ def run(src, fname, arg_types, ret_type, bits):
     Returns (ret_bits, wrapped) or raises Unsupported / any Python exception."""
     ns = namespace()
     exec(compile(src, "<c01>", "exec"), ns)
+    import types as _types
+    for k, v in list(ns.items()):
+        if isinstance(v, _types.FunctionType) and v.__module__ is None or (isinstance(v, _types.FunctionType) and v.__code__.co_filename == "<c01>"):
+            if k != fname:
+                ns[k] = _coerce_args(v)
     f = ns[fname]
     args, pos = [], 0
     for t in arg_types:
